@@ -104,6 +104,7 @@ class FD:
         self.functions = functions or {}  # dotted name -> FunctionDef interpreted inline
         self.resolver = resolver        # dotted name -> constant (raises KeyError)
         self.attr_hook = attr_hook
+        self.binop_hook = None
         self.steps = 0
         self.max_steps = max_steps
 
@@ -123,6 +124,9 @@ class FD:
             raise
 
     def e_Constant(self, e, env):
+        return e.value
+
+    def e__Lit(self, e, env):
         return e.value
 
     def e_Name(self, e, env):
@@ -313,6 +317,8 @@ class FD:
     def e_BinOp(self, e, env):
         a = self.eval(e.left, env)
         b = self.eval(e.right, env)
+        if self.binop_hook is not None and (isinstance(a, Obj) or isinstance(b, Obj)):
+            return self.binop_hook(e.op, a, b)
         if a is UNKNOWN or b is UNKNOWN:
             return UNKNOWN
         if a is ERR or b is ERR:
@@ -362,6 +368,18 @@ class FD:
         name = dotted(e.func)
         if e.keywords and any(k.arg is None for k in e.keywords):
             raise Inconclusive('fdeval: **kwargs call')
+        if any(isinstance(a, ast.Starred) for a in e.args):
+            flat = []
+            for a in e.args:
+                if isinstance(a, ast.Starred):
+                    v = self.eval(a.value, env)
+                    if not isinstance(v, (tuple, list)):
+                        raise Inconclusive('fdeval: *args of a non-concrete value')
+                    flat.extend(ast.Constant(value=x) if isinstance(x, (int, float, str, bool, type(None)))
+                                else _Lit(x) for x in v)
+                else:
+                    flat.append(a)
+            e = ast.Call(func=e.func, args=flat, keywords=e.keywords)
         if name in self.calls:
             args = [self.eval(a, env) for a in e.args]
             kwargs = {k.arg: self.eval(k.value, env) for k in e.keywords}
@@ -393,6 +411,8 @@ class FD:
             env[p] = self.eval(d, {})
         for p, a in zip(params, args):
             env[p] = a
+        if fn.args.vararg is not None:
+            env[fn.args.vararg.arg] = tuple(args[len(params):])
         for k, v in (kwargs or {}).items():
             env[k] = v
         for p in params:
@@ -404,6 +424,11 @@ class FD:
     def call_method(self, recv, attr, args):
         if attr in self.methods:
             return self.methods[attr](recv, *args)
+        if isinstance(recv, Obj):
+            if ('method:' + attr) in recv.attrs:
+                return recv.attrs['method:' + attr](*args)
+            if recv.attrs.get('__closed__'):
+                raise Raised('AttributeError', '%r object has no attribute %r' % (recv._name, attr))
         if recv is UNKNOWN:
             return UNKNOWN
         if recv is None:
@@ -584,6 +609,15 @@ class FD:
 
 _BUILTIN_TYPES = {'int': int, 'float': float, 'str': str, 'bool': bool, 'list': list, 'tuple': tuple,
                   'dict': dict, 'set': set}
+
+
+class _Lit(ast.expr):
+    """Carrier for an already-evaluated abstract value inside a synthesised call."""
+    _fields = ()
+
+    def __init__(self, value):
+        super().__init__()
+        self.value = value
 
 
 class _NoReturn:
